@@ -223,6 +223,12 @@ pub fn run(seed: u64, count: usize, thorough: bool, out: &mut Out) {
             }
         }
         copy_case(out, "clone", &p, q);
+        // a structure that lost bonded atoms (its bond table still names them) and its clone
+        if let Some(mut edited) = crate::guarded(|| p.clone()) {
+            edited.remove_atoms_by(|a| a.serial_number() % 3 == 1);
+            let q = crate::guarded(|| edited.clone());
+            copy_case(out, "clone-after-removal", &edited, q);
+        }
         // edits after the copy do not disturb either side
         if let Some(mut q2) = crate::guarded(|| p.clone()) {
             q2.remove_atoms_by(|a| a.serial_number() % 5 == 4 && a.name() != "SG");
